@@ -107,6 +107,9 @@ def replay(prop, name, ob, d, do_replay):
         f.write(f"# engine-B counterexample for {prop}, obligation {name}\n# {ob['detail']}\n")
     if not do_replay:
         return dict(reproduced=True, path=fn, detail="replay skipped")
+    if prop == "C06":
+        from . import allocreplay
+        return allocreplay.confirm(fn)
     slice_side = prop in ("C13", "C20", "C01") or (prop == "C05" and "stream" not in name) or (prop == "C18" and "prefix" in name.lower())
     if slice_side:
         from . import slicereplay
